@@ -143,17 +143,24 @@ pub fn run_case(ctx: &Ctx, sz: &Sizes, case: u64) {
     let mut order: Vec<usize> = (0..nsrv).collect();
     r.shuffle(&mut order);
     for &si in &order {
-        let kind = match r.below(10) {
+        let kind = match r.below(11) {
             0..=2 => 0,
             3..=5 => 1,
             6..=7 => 2,
             8 => 3,
-            _ => 4,
+            9 => 4,
+            _ => 5,
         } as u8;
         let process = is_os() && (kind == 0 || kind == 1) && r.chance(if nsrv > 20 { 100 } else { 400 });
+        let kind = if kind == 5 && !is_os() { 2 } else { kind };
         let nmsg = r.range(1, 20) as usize;
         let allow_multi = is_os() && sz.sndbuf < 100_000 && kind == 1;
-        let lens: Vec<usize> = (0..nmsg).map(|_| if allow_multi && r.chance(100) { sz.f1 + r.range(1, 2 * sz.f2 as u64) as usize } else { r.below(1500) as usize }).collect();
+        let lens: Vec<usize> = if kind == 5 {
+            // bulk: the client queues far more than one socket buffer before accept is called
+            (0..r.range(6, 12)).map(|_| if r.chance(600) { r.range(60_000, 300_000) as usize } else { r.below(2000) as usize }).collect()
+        } else {
+            (0..nmsg).map(|_| if allow_multi && r.chance(100) { sz.f1 + r.range(1, 2 * sz.f2 as u64) as usize } else { r.below(1500) as usize }).collect()
+        };
         let p = Plan { srv: si as u32, kind, process, lens };
         kinds_seen.push((kind, process));
         let server = servers[si].take().unwrap();
@@ -344,6 +351,57 @@ pub fn run_case(ctx: &Ctx, sz: &Sizes, case: u64) {
                             let _ = c.wait();
                         }
                     },
+                    5 => {
+                        // bulk before accept: the client thread connects and streams; it blocks on the full
+                        // socket until accept is called and the receiver drains it, then exits
+                        let lens2 = p.lens.clone();
+                        let srv = p.srv;
+                        let name2 = name.clone();
+                        let client = std::thread::spawn(move || -> Vec<String> {
+                            let mut errs = Vec::new();
+                            match IpcSender::<M>::connect(name2) {
+                                Ok(tx) => {
+                                    for (i, len) in lens2.iter().enumerate() {
+                                        if let Err(e) = tx.send((i as u32, Blob(body(mid(case, srv, i as u32), *len)), None)) {
+                                            errs.push(format!("seq {} len {}: {}", i, len, e));
+                                        }
+                                    }
+                                },
+                                Err(e) => errs.push(format!("connect: {}", e)),
+                            }
+                            errs
+                        });
+                        std::thread::sleep(std::time::Duration::from_millis(r.range(1, 15)));
+                        match server.accept() {
+                            Ok((rx, first)) => {
+                                let n = p.lens.len();
+                                let mut got = vec![first];
+                                while got.len() < n {
+                                    match rx.recv() {
+                                        Ok(m) => got.push(m),
+                                        Err(e) => {
+                                            problems.push(("bulk-message-missing".into(), json!({"server": p.srv, "got": got.len(), "want": n, "error": format!("{:?}", e)})));
+                                            break;
+                                        },
+                                    }
+                                }
+                                for e in client.join().unwrap_or_default() {
+                                    problems.push(("client-send-failed".into(), json!({"server": p.srv, "error": e, "kind": "bulk"})));
+                                }
+                                for (i, (seq, blob, _)) in got.iter().enumerate() {
+                                    if *seq != i as u32 || body_diff(mid(case, p.srv, *seq), p.lens[i], &blob.0).is_some() {
+                                        problems.push(("bulk-order-or-payload".into(), json!({"server": p.srv, "position": i, "seq": seq})));
+                                        break;
+                                    }
+                                }
+                                match rx.try_recv() {
+                                    Err(TryRecvError::IpcError(IpcError::Disconnected)) => {},
+                                    other => problems.push(("not-disconnected-after-client-gone".into(), json!({"server": p.srv, "got": format!("{:?}", other.map(|m| m.0))}))),
+                                }
+                            },
+                            Err(e) => problems.push(("accept-failed".into(), json!({"server": p.srv, "kind": kind, "error": e.to_string()}))),
+                        }
+                    },
                     _ => {
                         // send some, accept, send the rest
                         match IpcSender::<M>::connect(name.clone()) {
@@ -408,7 +466,7 @@ pub fn run_case(ctx: &Ctx, sz: &Sizes, case: u64) {
     }
     if case % 5 == 0 {
         rep.sample(json!({"ctx": base, "kinds [kind,process]": kinds_seen.iter().take(20).collect::<Vec<_>>(), "clean": seen.is_empty(),
-            "kind_legend": "0 client done and gone before accept, 1 accept first, 2 send/accept/send, 3 dropped unused, 4 dropped with connected client"}));
+            "kind_legend": "0 client done and gone before accept, 1 accept first, 2 send/accept/send, 3 dropped unused, 4 dropped with connected client, 5 bulk (>1 socket buffer) queued before accept"}));
     }
 }
 
